@@ -10,9 +10,9 @@ LEVEL = 'exploration'
 BUDGET = {'quick': 90, 'thorough': 900}
 RULE = ('Cases = persistent worker kind x default args (list or tuple, length 0-3) x default kwargs x history of <= 10 operations '
         'from {enqueue(fewer / as many / more positionals, overriding kwargs), next_result, results_iter(maxitems), call, close, '
-        'wait, enqueue after close / death} x target (echo, argument-mutating echo, None-returning) x schedule; every observed '
+        'wait, enqueue after close / death} x caller stalled at a line of the API call x target (echo, argument-mutating echo, None-returning) x schedule; every observed '
         'value is compared with a list model computed on pristine copies of the defaults.')
-ASSUMPTIONS = ['fault-free; buffer sizes are drawn but outstanding data always fits (the documented full-queue deadlock is excluded)']
+ASSUMPTIONS = ['no crash faults (a slow caller, stalled at a line boundary inside an API call, is part of the schedule space); buffer sizes are drawn but outstanding data always fits (the documented full-queue deadlock is excluded)']
 
 PKINDS = ['pthread', 'pprocess', 'premote']
 ATOMS = [0, 1, 'a', None, [1], ['x', 'y'], {'k': 1}, False, '']
@@ -47,8 +47,15 @@ def gen_case(ctx, rng, i, tag='random'):
             ops.append(['wait'])
     ops.append(['wait'])
     ops.append(['enqueue', [1], {}])
+    fault = None
+    if rng.random() < 0.4:
+        # a slow caller: the consuming / producing caller thread is descheduled at one line boundary inside the API call, long
+        # enough for the worker to make arbitrary progress (finish, deliver, exit) in between two of its statements
+        fault = {'kind': 'stall', 'any_thread': True, 'occ': rng.randrange(1, 16), 'duration': rng.choice([0.2, 1.0]),
+                 'qualname': rng.choice(['PersistentWorker.next_result', 'PersistentWorker.next_result', 'PersistentWorker.results_iter',
+                                         'PersistentWorker.call', 'PersistentWorker.enqueue', 'PersistentWorker.close'])}
     return {'kind': kind, 'args_type': rng.choice(['list', 'list', 'tuple']), 'dargs': dargs, 'dkw': dkw,
-            'target': rng.choice(['p_echo', 'p_echo', 'p_mut_echo', 'p_none']), 'ops': ops,
+            'target': rng.choice(['p_echo', 'p_echo', 'p_mut_echo', 'p_none']), 'ops': ops, 'fault': fault,
             'policy': pol, 'knobs': knobs, 'sched_seed': ctx.case_seed(tag, i)}
 
 
@@ -89,6 +96,7 @@ class Run:
             self.viol('constructor', f'ctor-{r[0]}:{type(r[1]).__name__}')
             return
         w = r[1]
+        C.install_fault(s, c.get('fault'))
         expected = []      # model: values in order of accepted enqueues
         delivered = 0
         closed = False
@@ -238,6 +246,8 @@ def shrink(case):
         yield dict(c, ops=ops[:k] + ops[k + 1:])
     if c.get('knobs'):
         yield dict(c, knobs={})
+    if c.get('fault'):
+        yield dict(c, fault=None)
     if c['dargs']:
         yield dict(c, dargs=c['dargs'][:-1])
     if c['dkw']:
